@@ -20,7 +20,12 @@ func main() {
 	out := flag.String("out", "", "result json")
 	replay := flag.String("replay", "", "replay file (op lines)")
 	only := flag.String("only", "", "run only the case with this name (replay)")
+	dnsChild := flag.Bool("dns-child", false, "internal: DNS decode child process")
 	flag.Parse()
+	if *dnsChild {
+		props.DNSChildMain()
+		return
+	}
 	c, ok := props.All[*prop]
 	if !ok {
 		fmt.Fprintf(os.Stderr, "unknown property %q\n", *prop)
